@@ -85,6 +85,18 @@ Print Assumptions nsteps_ok_bounded.
 Example nsteps_nonvacuous : nsteps (dec 1 0) (dec 1 3) (dec 1 1) = Some 3%Z.   (* T = 0.3, dt = 0.1 *)
 Proof. exact nsteps_example. Qed.
 
+(* ---- StateEvolution.execute as a sequence of operations: exactly n solver steps, and the LAST operation is
+        normalize_state -- with or without callbacks (so the returned Runge-Kutta state has norm 1) ---- *)
+Theorem execute_normalises_last : forall cb n,
+  (exists l, execute_trace cb n = l ++ [XNorm]) /\
+  length (filter (fun o => xop_eqb o XStep) (execute_trace cb n)) = n.
+Proof. intros cb n. split; [apply execute_ends_with_norm|apply execute_step_count]. Qed.
+Print Assumptions execute_normalises_last.
+
+Example execute_trace_nonvacuous :
+  execute_trace false 2 = [XCb; XStep; XStep; XNorm] /\ execute_trace true 1 = [XCb; XStep; XNorm; XCb; XNorm].
+Proof. split; reflexivity. Qed.
+
 (* ---- exponential solver: k steps = P^k psi ---- *)
 Theorem exp_solver_steps : forall n c P psi k, wfm (2 ^ n) (2 ^ n) P -> wfm (2 ^ n) c psi ->
   evolve (exp_step P) (Z.of_nat k) psi = mmul ZK (mpow ZK n P k) psi.
